@@ -1,2 +1,203 @@
-(* C02 — property theorems (being built). *)
-From Klog Require Import Base.Prelude Model.Eval.
+(* C02 — total, should-total and diff follow the specification's evaluation rules.
+   Property theorems only; each is closed by [exact <lemma>] and followed by Print Assumptions.
+   Model: Model/Eval.v (service.Total / ShouldTotalSum / Diff / CloseOpenRanges), all additions through
+   safemath as in the Go code; definitions used in the statements (spec_minutes, no_overflow, close_rel, ...) are
+   in Proofs/Eval.v.
+   Not here: total_of_text (composition with the parser, C01). *)
+From Klog Require Import Base.Prelude Model.Calendar Model.Values Model.Record Model.Eval Proofs.Values Proofs.Eval.
+From Coq Require Import Permutation.
+Open Scope Z_scope.
+
+(* 0. a shifted time is an offset from midnight of the record's day: `<` = previous day, `>` = next day *)
+Theorem C02_offset_spec : forall t : time,
+  time_offset t = 1440 * shift_of t + 60 * t_hour t + t_min t.
+Proof. exact offset_spec. Qed.
+Print Assumptions C02_offset_spec.
+
+(* 1. what one entry counts: the signed duration; for a range end - start as offsets; 0 for an open range *)
+Theorem C02_spec_minutes : forall e : entry,
+  entry_minutes e =
+  match e_value e with
+  | VDuration d => d_mins d
+  | VRange r => (1440 * shift_of (r_end r) + 60 * t_hour (r_end r) + t_min (r_end r))
+              - (1440 * shift_of (r_start r) + 60 * t_hour (r_start r) + t_min (r_start r))
+  | VOpen _ => 0
+  end.
+Proof. exact entry_minutes_spec. Qed.
+Print Assumptions C02_spec_minutes.
+
+(* 2. the total is the sum of all entries of all records — exactly when every summand and every partial sum
+      (in the order the Go code adds them) stays within safemath's range [-(2^63-1), 2^63-1]; otherwise the Go
+      code panics with "Integer overflow" (known finding K1). Nothing else can happen. *)
+Theorem C02_total_spec : forall rs : list record,
+  (sums_fit 0 (map spec_minutes (all_entries rs)) /\
+     total rs = Ok (zsum (map spec_minutes (all_entries rs)))) \/
+  (~ sums_fit 0 (map spec_minutes (all_entries rs)) /\ total rs = Crash CIntegerOverflow).
+Proof. exact total_dichotomy. Qed.
+Print Assumptions C02_total_spec.
+
+(* the guard in closed form: every summand fits and every prefix sum fits *)
+Theorem C02_no_overflow_closed : forall rs : list record,
+  no_overflow rs <->
+  (Forall fits (map spec_minutes (all_entries rs)) /\
+   forall k : nat, fits (zsum (firstn k (map spec_minutes (all_entries rs))))).
+Proof. exact no_overflow_closed. Qed.
+Print Assumptions C02_no_overflow_closed.
+
+Theorem C02_total_crash_iff : forall rs : list record,
+  (exists c, total rs = Crash c) <-> ~ no_overflow rs.
+Proof. exact total_crash_iff. Qed.
+Print Assumptions C02_total_crash_iff.
+
+(* the unguarded statement "total = sum" is false of the code: two entries of 9223372036854775807m, each of which
+   is representable, make service.Total panic (K1) *)
+Theorem C02_total_overflow_refuted :
+  exists rs, Forall fits (map spec_minutes (all_entries rs)) /\
+             total rs <> Ok (spec_total rs) /\ exists c, total rs = Crash c.
+Proof. exact total_overflow_refuted. Qed.
+Print Assumptions C02_total_overflow_refuted.
+
+(* 3. corollaries under the guard *)
+
+(* additivity over concatenation of record lists *)
+Theorem C02_total_app : forall a b : list record, no_overflow (a ++ b) ->
+  total (a ++ b) = Ok (spec_total a + spec_total b) /\ total a = Ok (spec_total a).
+Proof. exact total_app. Qed.
+Print Assumptions C02_total_app.
+
+Theorem C02_total_additive : forall a b : list record, abs_fit (a ++ b) ->
+  exists ta tb, total a = Ok ta /\ total b = Ok tb /\ total (a ++ b) = Ok (ta + tb).
+Proof. exact total_additive. Qed.
+Print Assumptions C02_total_additive.
+
+(* invariance under permutation of the records (order-independent guard: the absolute values sum to <= 2^63-1) *)
+Theorem C02_total_perm : forall a b : list record, Permutation a b ->
+  zsum (map Z.abs (map spec_minutes (all_entries a))) <= 9223372036854775807 ->
+  total b = total a /\ total a = Ok (spec_total a).
+Proof. exact total_perm. Qed.
+Print Assumptions C02_total_perm.
+
+(* overlapping ranges count fully: two ranges in one record count with their full lengths whatever their position *)
+Theorem C02_overlapping_ranges_count_fully : forall d sh sm (r1 r2 : range) s1 s2,
+  valid_time (r_start r1) -> valid_time (r_end r1) -> valid_time (r_start r2) -> valid_time (r_end r2) ->
+  total [{| rec_date := d; rec_should := sh; rec_summary := sm;
+            rec_entries := [{| e_value := VRange r1; e_summary := s1 |}; {| e_value := VRange r2; e_summary := s2 |}] |}]
+  = Ok ((spec_offset (r_end r1) - spec_offset (r_start r1)) + (spec_offset (r_end r2) - spec_offset (r_start r2))).
+Proof. exact overlapping_ranges_count_fully. Qed.
+Print Assumptions C02_overlapping_ranges_count_fully.
+
+(* records that share a date stay separate: both count; and the total never looks at dates at all *)
+Theorem C02_same_date_separate : forall r1 r2 : record, rec_date r1 = rec_date r2 -> no_overflow [r1; r2] ->
+  total [r1; r2] = Ok (spec_total [r1] + spec_total [r2]).
+Proof. exact same_date_separate. Qed.
+Print Assumptions C02_same_date_separate.
+
+Theorem C02_total_ignores_dates : forall a b : list record,
+  map rec_entries a = map rec_entries b -> total a = total b.
+Proof. exact total_ignores_dates. Qed.
+Print Assumptions C02_total_ignores_dates.
+
+(* the should-total is the sum of the records' should-totals (0 where none is set), same guard, same panic *)
+Theorem C02_should_total_spec : forall rs : list record,
+  (sums_fit 0 (map should_minutes rs) /\ should_total_sum rs = Ok (zsum (map should_minutes rs))) \/
+  (~ sums_fit 0 (map should_minutes rs) /\ should_total_sum rs = Crash CIntegerOverflow).
+Proof. exact should_total_spec. Qed.
+Print Assumptions C02_should_total_spec.
+
+Theorem C02_should_total_perm : forall a b : list record, Permutation a b ->
+  abs_sum (map should_minutes a) <= 9223372036854775807 ->
+  should_total_sum b = should_total_sum a /\ should_total_sum a = Ok (spec_should a).
+Proof. exact should_total_perm. Qed.
+Print Assumptions C02_should_total_perm.
+
+(* the diff is total minus should-total *)
+Theorem C02_diff_spec : forall sh t : Z,
+  (fits t /\ fits sh /\ fits (t - sh) -> diff sh t = Ok (t - sh)) /\
+  (~ (fits t /\ fits sh /\ fits (t - sh)) -> diff sh t = Crash CIntegerOverflow).
+Proof. exact diff_spec. Qed.
+Print Assumptions C02_diff_spec.
+
+Theorem C02_total_should_diff : forall rs : list record,
+  no_overflow rs -> should_no_overflow rs -> fits (spec_total rs - spec_should rs) ->
+  exists t sh, total rs = Ok t /\ should_total_sum rs = Ok sh /\ diff sh t = Ok (t - sh) /\
+               t = spec_total rs /\ sh = spec_should rs.
+Proof. exact total_should_diff. Qed.
+Print Assumptions C02_total_should_diff.
+
+(* 4. --now: closing open ranges at the instant (today, h:m). [close_rel] says: a record without an open range is
+      unchanged; otherwise its FIRST open range (start s) becomes the range s - h:m when the record is dated today,
+      s - h:m> (offset 60h+m+1440) when it is dated the day before, provided s is not after that end.
+      The call succeeds with exactly those records, or fails with "uncloseable" exactly when some record with an
+      open range is dated neither today nor the day before or starts after the end; it never panics
+      (given a clock reading 0:00..23:59 and today > 0000-01-01). *)
+Theorem C02_close_open_ranges_spec : forall today before h m rs,
+  valid_clock h m -> plus_days today (-1) = Ok before ->
+  (forall rs', close_open_ranges today h m rs = Ok rs' <-> Forall2 (close_rel today before h m) rs rs') /\
+  ((exists e, close_open_ranges today h m rs = Err e) <-> Exists (uncloseable today before h m) rs) /\
+  (forall e, close_open_ranges today h m rs = Err e -> e = EUncloseable) /\
+  (forall c, close_open_ranges today h m rs <> Crash c).
+Proof. exact close_open_ranges_spec. Qed.
+Print Assumptions C02_close_open_ranges_spec.
+
+(* in particular a record without an open range comes back unchanged *)
+Theorem C02_close_rel_unchanged : forall today before h m r r',
+  close_rel today before h m r r' -> no_open (rec_entries r) -> r' = r.
+Proof. exact close_rel_unchanged. Qed.
+Print Assumptions C02_close_rel_unchanged.
+
+(* the hypothesis that today has a day before is needed: with the clock at 0000-01-01, Date.PlusDays(-1) panics in
+   CloseOpenRanges whatever the records are (klog's dates are 0000-01-01 .. 9999-12-31) *)
+Theorem C02_close_first_day_refuted :
+  exists today h m rs, valid_clock h m /\ exists c, close_open_ranges today h m rs = Crash c.
+Proof. exact close_first_day_refuted. Qed.
+Print Assumptions C02_close_first_day_refuted.
+
+(* the total after closing = the total before + for every record with an open range (end - offset of its start) *)
+Theorem C02_total_now_spec : forall today before h m rs rs',
+  valid_clock h m -> plus_days today (-1) = Ok before ->
+  close_open_ranges today h m rs = Ok rs' -> no_overflow rs' ->
+  total rs' = Ok (spec_total rs + zsum (map (closing_gain today h m) rs)) /\
+  (forall t, total rs = Ok t -> total rs' = Ok (t + zsum (map (closing_gain today h m) rs))).
+Proof. exact total_now_spec. Qed.
+Print Assumptions C02_total_now_spec.
+
+(* with at most one open range per record (what the parser guarantees) no open range is left: every open range is
+   evaluated as closed at the instant *)
+Theorem C02_close_leaves_no_open : forall today before h m rs rs',
+  Forall2 (close_rel today before h m) rs rs' -> Forall at_most_one_open rs ->
+  Forall (fun r' => no_open (rec_entries r')) rs'.
+Proof. exact close_leaves_no_open. Qed.
+Print Assumptions C02_close_leaves_no_open.
+
+(* ---- non-vacuity ---- *)
+(* ex_records: 2020-01-01 (should 8h) with 30m and 8:00-?; 2019-12-31 with 23:00-? and -15m; 2019-12-31 (should -1h)
+   with 45m. Guards hold; total 60, should 420, diff -360. Closed at 2020-01-01 9:30: gains 90 and 630, total 780.
+   Closed at 7:59 the first record is uncloseable. *)
+Example C02_nonvacuous :
+  no_overflow ex_records /\ abs_fit ex_records /\ should_no_overflow ex_records /\
+  Forall at_most_one_open ex_records /\
+  total ex_records = Ok 60 /\ should_total_sum ex_records = Ok 420 /\ diff 420 60 = Ok (-360) /\
+  plus_days ex_today (-1) = Ok ex_before /\ valid_clock 9 30 /\
+  (exists rs', close_open_ranges ex_today 9 30 ex_records = Ok rs' /\ no_overflow rs' /\ total rs' = Ok 780) /\
+  map (closing_gain ex_today 9 30) ex_records = [90; 630; 0] /\
+  close_open_ranges ex_today 7 59 ex_records = Err EUncloseable.
+Proof.
+  split; [apply abs_fit_no_overflow; vm_compute; discriminate|].
+  split; [vm_compute; discriminate|].
+  split; [apply abs_sums_fit; vm_compute; discriminate|].
+  split.
+  { repeat constructor; intros pre e o post H; destruct (first_open_inv _ _ _ _ _ H) as (Heq & Hpre & He).
+    - destruct pre as [|x [|y pre]]; cbn in Heq; try discriminate.
+      + injection Heq as <- _. discriminate He.
+      + injection Heq as _ _ <-. constructor.
+      + injection Heq as _ _ Heq. destruct pre; discriminate.
+    - destruct pre as [|x pre]; cbn in Heq.
+      + injection Heq as _ <-. repeat constructor.
+      + injection Heq as <- Heq. inversion Hpre as [|? ? Hx _]. discriminate Hx.
+    - destruct pre as [|x [|y pre]]; cbn in Heq; try discriminate.
+      injection Heq as <- _. discriminate He. }
+  split; [vm_compute; reflexivity|]. split; [vm_compute; reflexivity|]. split; [vm_compute; reflexivity|].
+  split; [vm_compute; reflexivity|]. split; [unfold valid_clock; lia|].
+  split; [eexists; split; [vm_compute; reflexivity|split; [apply abs_fit_no_overflow; vm_compute; discriminate|vm_compute; reflexivity]]|].
+  split; vm_compute; reflexivity.
+Qed.
